@@ -150,6 +150,94 @@ def gen_case(cid, kind, rng, thorough):
     return (hdr, ops)
 
 
+def gen_hammer(cid, kind, rng, thorough):
+    """One long churn block on an apply cache with 1 or 2 buckets: every cache access of every thread and the
+    collector's bucket locks meet on the same bucket(s), a collection runs almost all the time."""
+    nv = rng.randrange(5, 8)
+    pool = rng.randrange(5, 9)
+    ops = [f"VARS {nv}"]
+    for i in range(pool):
+        ops.append(f"{rng.choice(['TT', 'TTI'])} h{i} {nv} {ddgen.rand_tt(rng, nv):x}")
+    ops.append("SNAP")
+    k = rng.randrange(3, 5)
+    ops.append(f"PAR {k}")
+    keys = [(rng.choice(BOOL_OPS), rng.randrange(pool), rng.randrange(pool)) for _ in range(rng.randrange(3, 7))]
+    base = 100
+    lines = [[] for _ in range(k)]
+    keep = []
+    for t in range(k - 1):
+        rounds = rng.randrange(120, 400 if thorough else 260)
+        for rd in range(rounds):
+            o, a, b = rng.choice(keys)
+            d = base; base += 1
+            lines[t].append(f"{o} h{d} h{a} h{b}")
+            if rd < rounds - 4:
+                lines[t].append(f"DROP h{d}")
+            else:
+                keep.append(d)
+    lines[k - 1] = ["PGC"] * rng.randrange(80, 200)
+    idx = [0] * k
+    remaining = sum(len(l) for l in lines)
+    while remaining:
+        t = rng.choice([i for i in range(k) if idx[i] < len(lines[i])])
+        ops.append(f"T{t} {lines[t][idx[t]]}")
+        idx[t] += 1
+        remaining -= 1
+    ops += ["ENDPAR", "SNAP", "DROPALL", "GC", "SNAP"]
+    hdr = ddgen.header(cid, kind, cap=1 << 16, cache=rng.choice([1, 2]), threads=rng.choice([1, 2, 4]),
+                       extra=f"seed={rng.randrange(1 << 30)} yield={rng.choice([0, 20, 100])}")
+    return (hdr, ops)
+
+
+def gen_stress(cid, kind, rng, thorough):
+    """Free-running stress on larger diagrams (11..13 variables, functions built from random connectives): 6
+    threads recompute short scripts over a shared pool while one thread collects continuously; the garbage is
+    collected before the snapshot (the audits are quadratic in the number of stored nodes)."""
+    nv = rng.randrange(11, 14)
+    ops = [f"VARS {nv}"]
+    for v in range(nv):
+        ops.append(f"VAR h{v} {v}")
+    pool = list(range(nv))
+    nxt = nv
+    for _ in range(40):
+        ops.append(f"{rng.choice(['AND', 'OR', 'XOR', 'XOR', 'EQUIV', 'IMP'])} h{nxt} h{rng.choice(pool)} h{rng.choice(pool)}")
+        pool.append(nxt); nxt += 1
+    pool = pool[-24:]
+    ops.append("GC")
+    ops.append("SNAP")
+    k = 7
+    ops.append(f"PAR {k}")
+    base = 1000
+    lines = [[] for _ in range(k)]
+    scripts = []
+    for _ in range(10):
+        scripts.append([(rng.choice(['AND', 'OR', 'XOR', 'IMP']), rng.choice(pool), rng.choice(pool)) for _ in range(3)])
+    for t in range(k - 1):
+        rounds = rng.randrange(25, 60 if thorough else 40)
+        for rd in range(rounds):
+            sc = rng.choice(scripts)
+            d0 = base; base += 3
+            lines[t].append(f"{sc[0][0]} h{d0} h{sc[0][1]} h{sc[0][2]}")
+            lines[t].append(f"{sc[1][0]} h{d0 + 1} h{d0} h{sc[1][2]}")
+            lines[t].append(f"{sc[2][0]} h{d0 + 2} h{d0 + 1} h{sc[2][1]}")
+            lines[t].append(f"DROP h{d0}")
+            lines[t].append(f"DROP h{d0 + 1}")
+            if rd < rounds - 2:
+                lines[t].append(f"DROP h{d0 + 2}")
+    lines[k - 1] = ["PGC"] * rng.randrange(60, 150)
+    idx = [0] * k
+    remaining = sum(len(l) for l in lines)
+    while remaining:
+        t = rng.choice([i for i in range(k) if idx[i] < len(lines[i])])
+        ops.append(f"T{t} {lines[t][idx[t]]}")
+        idx[t] += 1
+        remaining -= 1
+    ops += ["ENDPAR", "GC", "SNAP", "DROPALL", "GC", "SNAP"]
+    hdr = ddgen.header(cid, kind, cap=1 << 20, cache=rng.choice([64, 1024]), threads=rng.choice([2, 4, 8]),
+                       extra=f"seed={rng.randrange(1 << 30)} yield={rng.choice([0, 10])}")
+    return (hdr, ops)
+
+
 def gen_cases(ctx):
     rng = random.Random(ctx.seed * 7919 + 7)
     thorough = ctx.tier == "thorough"
@@ -158,6 +246,11 @@ def gen_cases(ctx):
     for kind in ("bdd", "bcdd", "zbdd"):
         for _ in range(1500 if thorough else 160):
             cases.append(gen_case(f"p{cid}", kind, rng, thorough)); cid += 1
+        for _ in range(60 if thorough else 14):
+            cases.append(gen_hammer(f"k{cid}", kind, rng, thorough)); cid += 1
+        if kind != "zbdd":
+            for _ in range(24 if thorough else 6):
+                cases.append(gen_stress(f"s{cid}", kind, rng, thorough)); cid += 1
     return cases
 
 
@@ -247,7 +340,7 @@ def run(ctx):
     ctx.stats["distinct_nontrivial"] = len({(h.split(" ", 1)[1], tuple(ops)) for h, ops in cases if any(o.startswith("PAR") for o in ops)})
     vf.write_evidence(
         ctx, "proof",
-        rule="per kind (bdd, bcdd, zbdd): random histories with 2-4 parallel blocks, each executed by 2-4 OS threads (plus 1/2/4 pool workers) on one manager: apply, not, ite, quantification, clone, drop (also on another thread), node_count and collections under the shared lock; several threads compute the same operation on the same operands; churn blocks (a small set of operations recomputed and dropped over and over while one thread collects continuously); seeded yield/spin injection (0/5/20/50 percent) at the hook sites; sequential interludes with drops and gc. non-trivial = case with at least one parallel block; distinct = distinct (header, op list)",
+        rule="per kind (bdd, bcdd, zbdd): random histories with 2-4 parallel blocks, each executed by 2-4 OS threads (plus 1/2/4 pool workers) on one manager: apply, not, ite, quantification, clone, drop (also on another thread), node_count and collections under the shared lock; several threads compute the same operation on the same operands; churn blocks (a small set of operations recomputed and dropped over and over while one thread collects continuously); hammer cases (one long churn block, 120-260 rounds per thread against 80-200 collections, on an apply cache of 1 or 2 buckets); seeded yield/spin injection (0/5/20/50 percent) at the hook sites; sequential interludes with drops and gc. non-trivial = case with at least one parallel block; distinct = distinct (header, op list)",
         checker_cmd="make -C coq Props/C07.vo (coqc 8.16.1) + Print Assumptions audit; ./check C07",
         extra_cov={"cases_ok": res["ok"], "cases_bad_trace_replay": len(res["bad_tr"]), "cases_bad_result_audit": len(res["bad_dd"]),
                    "traces_validated_against_impl": int(ctx.stats.get("trace_par_blocks", 0)) - int(ctx.stats.get("trace_par_blocks_not_replayed", 0)),
